@@ -818,7 +818,12 @@ class Interp:
             from .objmodel import World
             wld = self.externals.get("__world__")
             if wld is None:
-                return _NOHOME  # only an object-model scenario knows how to run methods of instances; elsewhere: cannot decide
+                # a function-level scenario meets a class: an object model is set up around the scenario's own table of modelled
+                # callees, and its hooks (constructors, method dispatch on instances, properties) join that table
+                base_ = {k_: v_ for k_, v_ in self.externals.items() if not k_.startswith("__") or k_ in ("__elementwise__", "__strict__")}
+                base_.setdefault("__strict__", bool(self.externals.get("__strict__", False)))
+                wld = World(base_, region=self.region, module_env={k_: v_ for k_, v_ in self.env.items() if isinstance(v_, (Obj, PyFunc)) and k_ != "self"})
+                self.externals["__world__"] = wld
             if obj.name not in wld.classes:
                 wld.add_class(obj)
                 fresh_ = wld.externals()  # the new class's constructor and method dispatchers, for every interpreter sharing this table
